@@ -21,7 +21,7 @@ import (
 )
 
 func init() {
-	register("C02", genC02)
+	register("C02", func(c *Ctx) { genC02(c); genC02Core(c) })
 	register("C20", func(c *Ctx) { genC20(c); genC20Hover(c) })
 	replayers["dec.parse"] = func(c *Ctx, m map[string]any) map[string]any {
 		s, _ := m["s"].(string)
